@@ -25,19 +25,19 @@ func (c *vConsole) Write(p []byte) (int, error) {
 	return len(p), nil
 }
 
-// memory: whatever NewMemory installs where the BIOS lives (page-0 vectors,
-// the BDOS stub of _z80/minibios.asm, the stop code), arbitrary bytes elsewhere
+// memory: whatever NewMemory installs in the BIOS pages (page 0 with its
+// vectors, 0xFE00-0xFFFF with the BDOS stub and the stop code), arbitrary bytes
+// in between (0x0100-0xFDFF: program, data, stack)
 func vMachine() (*Memory, *IO, *vConsole) {
 	real := NewMemory()
 	m := new(Memory)
 	vHavoc(m, "mem") // every byte arbitrary (whatever the type keeps inside)
-	for a := 0; a < 8; a++ {
+	for a := 0; a < 0x100; a++ {
 		m.Set(uint16(a), real.Get(uint16(a)))
 	}
-	for a := 0xfe06; a < 0xfe06+23; a++ {
+	for a := 0xfe00; a <= 0xffff; a++ {
 		m.Set(uint16(a), real.Get(uint16(a)))
 	}
-	m.Set(0xff03, real.Get(0xff03))
 	cons := &vConsole{}
 	io := NewIO()
 	io.SetStdout(cons)
@@ -47,25 +47,45 @@ func vMachine() (*Memory, *IO, *vConsole) {
 
 func vOutsideBIOS(a uint16) bool { return vAnd(a >= 0x0100, a < 0xfe00) }
 
-// caller: CALL 5 at pc, stack bytes clear of the BIOS pages and the call site
+// bytes below SP that the call may change: the return slot of the caller's own
+// CALL 5 and nothing else ("the caller's code intact" is quantified over every
+// caller, also one whose code or data lies right below its stack pointer)
+const vStackRoom = 2
+
+// a is not one of the vStackRoom bytes below sp
+func vClearOfStack(a, sp uint16) bool { return sp-1-a >= vStackRoom }
+
+// caller: CALL 5 at pc; the stack area lies outside the BIOS pages and clear of the call site
 func vCaller(m *Memory, s *z80.States) {
 	pc := s.PC
 	vAssume(vAnd(pc >= 0x0100, pc < 0xfe00-3))
 	m.Set(pc, 0xcd)
 	m.Set(pc+1, 0x05)
 	m.Set(pc+2, 0x00)
-	s1, s2 := s.SP-1, s.SP-2
-	vAssume(vAnd(vOutsideBIOS(s1), vOutsideBIOS(s2)))
-	vAssume(vAnd(vOr(s1 < pc, s1 > pc+2), vOr(s2 < pc, s2 > pc+2)))
+	vAssume(vAnd(s.SP >= 0x0100+vStackRoom, s.SP <= 0xfe00))
+	for i := uint16(0); i < 3; i++ {
+		vAssume(vClearOfStack(pc+i, s.SP))
+	}
+}
+
+// vRunCall steps until the call has returned (PC just after the CALL), at most max Steps
+func vRunCall(cpu *z80.CPU, ret uint16, max int) {
+	for i := 0; i < max; i++ {
+		cpu.Step()
+		if vCase(cpu.PC == ret) {
+			return
+		}
+	}
 }
 
 func vReturned(cpu *z80.CPU, s z80.States, m, ref *Memory) {
 	vAssert("returns-to-caller", cpu.PC == s.PC+3)
 	vAssert("sp-restored", cpu.SP == s.SP)
 	vAssert("not-halted", !cpu.HALT)
-	vAssert("bc-hl-ix-iy-kept", vAnd(vAnd(cpu.BC == s.BC, cpu.HL == s.HL), vAnd(cpu.IX == s.IX, cpu.IY == s.IY)))
+	// the caller's memory (program, data, stack above SP, and everything below the
+	// return slot) is intact
 	probe := vU16("probe")
-	vAssume(vAnd(probe != s.SP-1, probe != s.SP-2))
+	vAssume(vAnd(vOutsideBIOS(probe), vClearOfStack(probe, s.SP)))
 	vAssert("memory-intact", m.Get(probe) == ref.Get(probe))
 	vAssert("no-warning", vWarnCount() == 0)
 }
@@ -85,12 +105,9 @@ func VC18Fn2() {
 	vCaller(m, &s)
 	ref := vCopyMem(m)
 	cpu := &z80.CPU{States: s, Memory: m, IO: io}
-	for i := 0; i < 8; i++ { // CALL, JP, LD A,C, CP 2, JR Z, LD A,E, OUT (0),A, RET
-		cpu.Step()
-	}
+	vRunCall(cpu, s.PC+3, 16) // today 8: CALL, JP, LD A,C, CP 2, JR Z, LD A,E, OUT (0),A, RET
 	vAssert("one-byte", cons.n == 1)
 	vAssert("byte-is-E", cons.buf[0] == s.DE.Lo)
-	vAssert("de-kept", cpu.DE == s.DE)
 	vReturned(cpu, s, m, ref)
 }
 
@@ -107,7 +124,7 @@ func VC18Fn9(n int) {
 		a := de + uint16(i)
 		vAssume(vOutsideBIOS(a))
 		vAssume(vOr(a < s.PC, a > s.PC+2))
-		vAssume(vAnd(a != s.SP-1, a != s.SP-2))
+		vAssume(vClearOfStack(a, s.SP))
 		if i < n {
 			vAssume(str[i] != '$')
 			m.Set(a, str[i])
@@ -117,21 +134,26 @@ func VC18Fn9(n int) {
 	}
 	ref := vCopyMem(m)
 	cpu := &z80.CPU{States: s, Memory: m, IO: io}
-	for i := 0; i < 10+6*n; i++ {
-		cpu.Step()
-	}
+	vRunCall(cpu, s.PC+3, 16+10*n) // today 10+6n
 	vAssert("length", cons.n == n)
 	for i := 0; i < n && i < cons.n; i++ {
 		vAssert("bytes-in-order", cons.buf[i] == str[i])
 	}
-	got := uint16(cpu.DE.Hi)<<8 | uint16(cpu.DE.Lo)
-	vAssert("de-at-terminator", got == de+uint16(n))
 	vReturned(cpu, s, m, ref)
 }
 
 // per-character lemma at the loop head 0xFE14 (strings of any length by induction)
 func VC18Fn9Lemma() {
 	m, io, cons := vMachine()
+	// the lemma is written for the print loop of _z80/minibios.asm at 0xFE14:
+	// LD A,(DE); CP '$'; RET Z; OUT (0),A; INC DE; JR loop.  With any other BIOS it
+	// does not apply (the bounded end-to-end runs above still do).
+	loop := [9]uint8{0x1a, 0xfe, 0x24, 0xc8, 0xd3, 0x00, 0x13, 0x18, 0xf7}
+	for i := 0; i < 9; i++ {
+		if m.Get(uint16(0xfe14+i)) != loop[i] {
+			vStop("the BIOS print loop is not the one this lemma was written for")
+		}
+	}
 	var s z80.States
 	vHavoc(&s, "s")
 	s.PC = 0xfe14
@@ -155,7 +177,6 @@ func VC18Fn9Lemma() {
 		}
 		vAssert("nothing-written", cons.n == 0)
 		vAssert("returns", vAnd(cpu.SP == s.SP+2, cpu.PC == uint16(ref.Get(s.SP))|uint16(ref.Get(s.SP+1))<<8))
-		vAssert("de-kept", cpu.DE == s.DE)
 	}
 	probe := vU16("probe")
 	vAssert("memory-intact", m.Get(probe) == ref.Get(probe))
@@ -173,8 +194,11 @@ func VC18WarmBoot() {
 	m.Set(pc+1, 0x00)
 	m.Set(pc+2, 0x00)
 	cpu := &z80.CPU{States: s, Memory: m, IO: io}
-	for i := 0; i < 3; i++ {
+	for i := 0; i < 8; i++ { // today 3: JP 0, JP 0xFF03, HALT
 		cpu.Step()
+		if vCase(cpu.HALT) {
+			break
+		}
 	}
 	vAssert("halted-at-ff03", vAnd(cpu.HALT, cpu.PC == 0xff03))
 	vAssert("silent", cons.n == 0)
@@ -263,9 +287,10 @@ func VC18Seq() {
 		m.Set(pc+uint16(i), prog[i])
 	}
 	s.BC.Lo = 2
-	s1, s2 := s.SP-1, s.SP-2
-	vAssume(vAnd(vOutsideBIOS(s1), vOutsideBIOS(s2)))
-	vAssume(vAnd(vOr(s1 < pc, s1 > pc+7), vOr(s2 < pc, s2 > pc+7)))
+	vAssume(vAnd(s.SP >= 0x0100+vStackRoom, s.SP <= 0xfe00))
+	for i := uint16(0); i < 8; i++ {
+		vAssume(vClearOfStack(pc+i, s.SP))
+	}
 	de := uint16(s.DE.Hi)<<8 | uint16(s.DE.Lo)
 	ch := vU8("ch")
 	vAssume(ch != '$')
@@ -273,14 +298,12 @@ func VC18Seq() {
 		a := de + uint16(i)
 		vAssume(vOutsideBIOS(a))
 		vAssume(vOr(a < pc, a > pc+7))
-		vAssume(vAnd(a != s1, a != s2))
+		vAssume(vClearOfStack(a, s.SP))
 	}
 	m.Set(de, ch)
 	m.Set(de+1, '$')
 	cpu := &z80.CPU{States: s, Memory: m, IO: io}
-	for i := 0; i < 8+1+16; i++ { // fn 2 (8 Steps), LD C,9, fn 9 with one character (10+6)
-		cpu.Step()
-	}
+	vRunCall(cpu, pc+8, 48) // today 25: fn 2 (8 Steps), LD C,9, fn 9 with one character (10+6)
 	vAssert("two-bytes", cons.n == 2)
 	vAssert("first-is-E", cons.buf[0] == s.DE.Lo)
 	vAssert("then-the-string", cons.buf[1] == ch)
